@@ -12,7 +12,9 @@ RULE = ("the 1099 official 2020-12 cases first (expected verdicts known), then g
         "vocabulary with interaction-biased keyword mixes, each with 6 instances from shared pools; an operation is one "
         "(document, instances) pair; 4 %: uniqueItems / const / enum over containers of strings that differ but concatenate to the same "
         "character stream (pair followed by a duplicate of either member); 3 %: $refs into 2..3 distinct resources (embedded / Loader) whose URIs "
-        "differ only by a trailing slash, an empty path segment or one percent-encoded character, expected verdicts by construction; non-trivial: the document has >= 2 keywords and the verdict vector is not constant or a "
+        "differ only by a trailing slash, an empty path segment or one percent-encoded character, expected verdicts by construction; 4 %: enum with "
+        "12..40 values (numbers, strings, arrays, objects) against members spelled differently (1.0, 10e-1, 1e1, -0.0; json.Number under UseNumber or float64) at the "
+        "top and nested; non-trivial: the document has >= 2 keywords and the verdict vector is not constant or a "
         "reference is present; distinct = distinct operation text")
 TRUSTED = ["regular expressions: a parameter of the model; the driver's matcher is compared with Go's regexp on the pattern pool",
            "float64 arithmetic of multipleOf: exact on the generated domain (short dyadics)"]
@@ -74,6 +76,65 @@ def lookalike_case(rng):
     return {"op": "validate", "args": {"schema": doc, "insts": insts, "usenumber": rng.random() < 0.3}, "meta": {"kw": 2, "lookalike": shape}}
 
 
+# (schema spelling, other spellings of the same number)
+ENUM_NUMS = [("0", ["-0", "-0.0", "0.0", "0e3", "0E-2"]), ("1", ["1.0", "10e-1", "1e0", "0.1E1", "1.00"]), ("10", ["1e1", "10.0", "100e-1", "1E+1"]),
+             ("-3", ["-3.0", "-30e-1", "-0.3e1"]), ("0.5", ["5e-1", "0.50", "0.05e1"]), ("100", ["1e2", "100.0", "1.0E2"]), ("7", ["7.0", "70e-1"]),
+             ("2.5", ["25e-1", "2.50"]), ("-1", ["-1.0", "-1e0"]), ("42", ["42.0", "4.2e1"]), ("1024", ["1.024e3", "1024.0"]),
+             ("-0.25", ["-25e-2", "-0.250"])]
+
+
+def long_enum_case(rng):
+    """enum with MANY values (12..40, mostly 16 or more) mixing numbers, strings, arrays and objects (pairwise different), against
+    instances equal to a member but spelled differently (1.0 / 10e-1 / 1e0, 1e1 for 10, -0 / -0.0 for 0 — as json.Number under UseNumber,
+    as float64 otherwise), at the top and inside arrays / objects, next to members spelled alike, near-members and strings spelling
+    numbers."""
+    n = rng.choice([12, 15, 16, 16, 17, 20, 24, 32, 40])
+    nums = rng.sample(ENUM_NUMS, rng.randint(2, 6))
+    members = [Num(a) for a, _ in nums]
+    wraps = [lambda x: [x], lambda x: Obj([("a", x)]), lambda x: [x, "s"], lambda x: Obj([("k", [x]), ("z", None)]), lambda x: [[x]]]
+    cont = []  # (member, index into nums, wrap)
+    for _ in range(rng.randint(1, 5)):
+        i, w = rng.randrange(len(nums)), rng.choice(wraps)
+        m = w(Num(nums[i][0]))
+        if all(repr(m) != repr(c[0]) for c in cont):
+            cont.append((m, i, w))
+    members += [c[0] for c in cont]
+    k = 0
+    while len(members) < n:
+        r = rng.random()
+        members.append("s%d" % k if r < 0.5 else Num(str(5000 + k)) if r < 0.7 else [Num(str(2000 + k))] if r < 0.8 else ["t%d" % k, None] if r < 0.9
+                       else Obj([("id", Num(str(3000 + k)))]))
+        k += 1
+    if rng.random() < 0.3:
+        members.append(rng.choice([None, True, False, "", []]))
+    rng.shuffle(members)
+    insts = []
+    for _ in range(8):
+        r = rng.random()
+        i = rng.randrange(len(nums))
+        a, alts = nums[i]
+        if r < 0.35:
+            insts.append(Num(rng.choice(alts)))
+        elif r < 0.6 and cont:
+            m, i, w = rng.choice(cont)
+            insts.append(w(Num(rng.choice(nums[i][1]))))
+        elif r < 0.7:
+            insts.append(rng.choice(members))
+        elif r < 0.8:
+            insts.append(rng.choice([a, rng.choice(alts), "s0", "s"]))  # the string spelling a number
+        elif r < 0.9:
+            insts.append(rng.choice(wraps)(Num(rng.choice(alts))))
+        else:
+            insts.append(Num(rng.choice(["5", "5.0", "11", "1.5", "-0.5", "5e3", "5001.0", "2000"])))
+    en = Obj([("enum", members)])
+    doc = rng.choice([en, en, en, Obj([("not", en)]), Obj([("items", en)]), Obj([("anyOf", [en, Obj([("type", "boolean")])])]),
+                      Obj([("properties", Obj([("a", en)]))]), Obj([("if", en), ("then", Obj([("type", "number")]))])])
+    if doc.get("items") is not None:
+        insts = [insts[:3], insts[3:6]] + insts[6:]
+    return {"op": "validate", "args": {"schema": doc, "insts": insts, "usenumber": rng.random() < 0.6},
+            "meta": {"kw": 2, "longenum": len(members)}}
+
+
 def gen(rng, tier, n):
     ops = suite.suite_ops("draft2020-12")
     depth = 3 if tier == "quick" else 4
@@ -127,6 +188,9 @@ def gen(rng, tier, n):
             from .. import gen_refs
             args, meta = gen_refs.twin_universe(rng, "2020")
             ops.append({"op": "validate", "args": args, "meta": meta})
+            continue
+        if r < 0.52:
+            ops.append(long_enum_case(rng))
             continue
         c = gs.Ctx(rng, "2020", depth=rng.choice([1, 2, depth]))
         doc = gs.gen_document(c, gs.D2020_URI if rng.random() < 0.3 else None)
